@@ -11,7 +11,7 @@ from checks import c10
 PID = "C16"
 RULE = ("Real file_util.py processes in a temp directory. Source image: cassette or disk, written by the tool's own "
         "containers or by the independent writers (arbitrary leaders / scattered granule chains), holding 1-5 files "
-        "with names in upper, lower or mixed case (in one case of three two files share a name, same or swapped letter case), all kinds, boundary lengths (1..30000 bytes). Target: "
+        "with names in upper, lower or mixed case (in one case of three two files share a name, same or swapped letter case), all kinds (file types 0-3 x both data types), boundary lengths (1..30000 bytes). Target: "
         "--to_cas / --to_dsk / --to_bin; --files absent, a subset spelled in upper / lower / mixed case, or a name "
         "that matches nothing; chains source -> other kind -> back. Oracle: the independent reader of the target finds "
         "exactly the selected files in source order with identical type, data type, data, and (machine language) load "
@@ -40,14 +40,15 @@ def _mk_files(picks):
             ni += 1
             name = _NAMES[ni % len(_NAMES)]
         used.add(name.upper())
-        ftype, dtype = {"ml": (2, 0), "basic": (0, 0), "ascii": (0, 0xFF), "data": (1, 0xFF), "ml_ascii": (2, 0xFF)}[kind]
+        ftype, dtype = {"ml": (2, 0), "basic": (0, 0), "ascii": (0, 0xFF), "data": (1, 0xFF), "ml_ascii": (2, 0xFF), "text": (3, 0xFF),
+                        "text_bin": (3, 0), "data_bin": (1, 0)}[kind]
         out.append(dict(name=name, ext="BIN" if ftype == 2 else "BAS", kind=kind, ftype=ftype, dtype=dtype,
                         load=load if ftype == 2 else 0, exec=exe if ftype == 2 else 0,
                         data=dict(n=_LENS[li % len(_LENS)], k=k, mode=k % 4, head="", tail="")))
     return out
 
 
-_pick = st.tuples(st.integers(0, 11), st.sampled_from(["ml", "ml", "basic", "ascii", "data", "ml_ascii"]), st.integers(0, 17),
+_pick = st.tuples(st.integers(0, 11), st.sampled_from(["ml", "ml", "basic", "ascii", "data", "ml_ascii", "text", "text_bin", "data_bin"]), st.integers(0, 17),
                   st.integers(0, 10 ** 6), filegen.word, filegen.word)
 _files = st.lists(_pick, min_size=1, max_size=5).map(_mk_files)
 _case = st.fixed_dictionaries(dict(
